@@ -191,6 +191,8 @@ func (f *FailoverOf[V]) Get(
 	// Pushing expired value with short ttl to serve during update.
 	if v, freshEnough := f.freshEnough(err); freshEnough {
 		if err = f.refreshStale(ctx, key, v); err != nil {
+			keyLock.err = err // Sharing the error with the goroutines that wait for this key.
+
 			return val, err
 		}
 
